@@ -526,6 +526,14 @@ func (p *Prog) checkPbDeref(r *Reporter, fn *ssa.Function, b *ssa.BasicBlock, in
 		r.OK(pos, name, construct, "optional field dereferenced under a nil guard")
 		return
 	}
+	if st.NumFields() == 1 && strings.Contains(st.Tag(idx), ",oneof") {
+		// the single member of a generated oneof wrapper (Op_Value.Value, TermV2_Set.Set, ...): the
+		// decoder creates a wrapper only around a message it allocated (trusted protobuf contract, the
+		// same one the generated getters rely on); what the message's own required fields are worth
+		// is decided where they are dereferenced (underOneof).
+		r.OK(pos, name, construct, "member of a oneof wrapper selected by a type switch: the decoder creates the wrapper around a non-nil message")
+		return
+	}
 	r.Bad(pos, name, construct, "optional protobuf field dereferenced without a nil test: a token omitting it makes this a nil-pointer panic (use the generated getter or test for nil)")
 }
 
